@@ -77,16 +77,19 @@ func TestVerifC20Estimate(t *testing.T) {
 		}
 		r := &nri.LinuxResources{}
 		absent := rng.Intn(10) == 0
+		origMilli, origLim := int64(-1), int64(-1) // what the kubelet encoded (-1: not encoded)
 		if !absent {
 			r.Cpu = &nri.LinuxCPU{}
 			if rng.Intn(8) != 0 {
 				r.Cpu.Shares = nri.UInt64(kubernetes.MilliCPUToShares(milli))
+				origMilli = milli
 			}
 			lim := milli + int64(rng.Intn(3))*rng.Int63n(4000)
 			if rng.Intn(4) != 0 {
 				q, p := kubernetes.MilliCPUToQuota(lim)
 				r.Cpu.Quota = nri.Int64(q)
 				r.Cpu.Period = nri.UInt64(uint64(p))
+				origLim = lim
 			}
 		}
 		memLimit := int64(0)
@@ -99,8 +102,8 @@ func TestVerifC20Estimate(t *testing.T) {
 		shares := int64(r.GetCpu().GetShares().GetValue())
 		quota := r.GetCpu().GetQuota().GetValue()
 		period := int64(r.GetCpu().GetPeriod().GetValue())
-		fmt.Fprintf(w, "est %d %d %d %d %d %d %d %d %d %d %d\n", capacity, qi, shares, quota, period, memLimit, oomAdj,
+		fmt.Fprintf(w, "est %d %d %d %d %d %d %d %d %d %d %d %d %d\n", capacity, qi, shares, quota, period, memLimit, oomAdj,
 			verifQty(res.Requests, corev1.ResourceCPU, true), verifQty(res.Limits, corev1.ResourceCPU, true),
-			verifQty(res.Requests, corev1.ResourceMemory, false), verifQty(res.Limits, corev1.ResourceMemory, false))
+			verifQty(res.Requests, corev1.ResourceMemory, false), verifQty(res.Limits, corev1.ResourceMemory, false), origMilli, origLim)
 	}
 }
